@@ -8,20 +8,20 @@ DESIGN_INV = "SccRefinesWcc CostsBound CutBounds MstIsKruskal LccAgree"
 def run(ctx):
     q = ctx.quick
     # ---- design level: the brute-force definitions agree with independent characterisations on every small graph
-    ctx.tlc_gen("MC_Algo", A.gen(3, 2, inv=DESIGN_INV, emit=""), "design-n3", workers=4, timeout=3000)
-    ctx.tlc_gen("MC_Algo", A.gen(2, 3, inv=DESIGN_INV, emit=""), "design-n2", workers=4, timeout=3000)
+    ctx.tlc_gen("MC_Algo", A.gen("{1, 2, 3}", 2, inv=DESIGN_INV, emit=""), "design-n123", workers=4, timeout=3000)
     if not q:
-        ctx.tlc_gen("MC_Algo", A.gen(4, 2, inv=DESIGN_INV, emit=""), "design-n4", workers=4, timeout=3000)
+        ctx.tlc_gen("MC_Algo", A.gen("{2}", 4, inv=DESIGN_INV, emit=""), "design-n2", workers=4, timeout=3000)
+        ctx.tlc_gen("MC_Algo", A.gen("{4}", 2, inv=DESIGN_INV, emit=""), "design-n4", workers=4, timeout=3000)
     # self-test: Prim looking at one parallel relationship chosen by position is NOT minimal (TLC must find the witness)
-    ctx.tlc_gen("MC_Algo", A.gen(2, 2, inv="LegacyPrimMinimal", emit=""), "legacy-prim-selftest", expect_violation=True, workers=2)
+    ctx.tlc_gen("MC_Algo", A.gen("{2}", 2, inv="LegacyPrimMinimal", emit=""), "legacy-prim-selftest", expect_violation=True, workers=2)
 
     # ---- every directed multigraph, every algorithm, crate functions and CALL procedures
     if q:
-        fams = [(1, 3, A.W3, 1), (2, 3, A.W3, 1), (3, 3, A.W2, 1), (3, 2, A.W3, 1), (4, 2, A.W2, 1)]
-        pfam = [(2, 2, A.W2, 2), (3, 2, "{2}", 2)]
+        fams = [("{1, 2, 3}", 3, A.W2, 1), ("{2, 3}", 2, A.W3, 1), ("{4}", 2, A.W2, 1)]
+        pfam = [("{2, 3}", 2, "{2}", 2)]
     else:
-        fams = [(1, 4, A.W3, 1), (2, 4, A.W3, 1), (3, 4, A.W3, 1), (4, 3, A.W3, 1)]
-        pfam = [(2, 3, A.W3, 2), (3, 3, A.W2, 2), (4, 2, A.W2, 2)]
+        fams = [("{1, 2}", 4, A.W3, 1), ("{3}", 3, A.W3, 1), ("{3}", 4, A.W2, 1, "EmitAlt"), ("{4}", 2, A.W3, 1), ("{4}", 3, A.W2, 1, "EmitAlt")]
+        pfam = [("{2}", 3, A.W2, 2), ("{3}", 2, A.W2, 2), ("{3}", 3, "{2}", 2, "EmitAlt"), ("{4}", 2, "{2}", 2, "EmitAlt")]
     scripts = A.graphs(ctx, fams, "all")
     ctx.assume(A.ASSUME_GRAPH,
                "max flow is asked for s # t only (no s-t cut exists otherwise; edmonds_karp(s, s) does not terminate)",
@@ -29,8 +29,9 @@ def run(ctx):
                "node of CALL algo.mst is not specified and any node's component is accepted",
                "directed clustering coefficient = Fagiolo (2007) as documented in lcc.rs; undirected = 2T/(d(d-1)) over distinct "
                "neighbours; triangles ignore direction and multiplicity",
-               "quick tier: weights {1,2} for the 3-node/3-relationship and 4-node/2-relationship families; thorough: all multigraphs "
-               "with <=3 nodes/<=4 relationships and <=4 nodes/<=3 relationships, weights {1,2,3}")
+               "quick tier: <=3 nodes/<=3 relationships and 4 nodes/<=2 relationships with weights {1,2}, <=3 nodes/<=2 relationships "
+               "with weights {1,2,3}; thorough: every multigraph with <=3 nodes/<=4 relationships and <=4 nodes/<=3 relationships, "
+               "weights {1,2,3} up to 3 (2 for 4 nodes) relationships and {1,2} at the largest relationship count")
     sp = ctx.write_scripts("all", scripts)
     tr = ctx.run_harness("algo", sp, name="all", args=[ONLY, "proj=basic", "rep=1", "repalgos=tri,lcc"], timeout=7200)
     ctx.validate("Algo_Trace", A.TRACE, tr, name="all", corrupt=A.corrupt, timeout=7200)
@@ -40,14 +41,14 @@ def run(ctx):
     tr = ctx.run_harness("algo", sp, name="proj", args=[ONLY, "proj=full", "rep=0"], timeout=7200)
     ctx.validate("Algo_Trace", A.TRACE, tr, name="proj", corrupt=A.corrupt, timeout=7200)
     # larger graphs, still against the brute-force definitions: random 5/6-node multigraphs drawn by TLC -simulate
-    walks = ctx.tlc_gen("MC_Algo", A.gen(5, 7, canon="FALSE", emit="", inv="SimEmit"), "mid5", simulate=(40 if q else 400, 13), workers=2)
-    walks += ctx.tlc_gen("MC_Algo", A.gen(6, 9, canon="FALSE", emit="", inv="SimEmit"), "mid6", simulate=(10 if q else 150, 16), workers=2)
+    walks = ctx.tlc_gen("MC_Algo", A.gen("{5}", 7, canon="FALSE", emit="", inv="SimEmit"), "mid5", simulate=(40 if q else 400, 13), workers=2)
+    walks += ctx.tlc_gen("MC_Algo", A.gen("{6}", 9, canon="FALSE", emit="", inv="SimEmit"), "mid6", simulate=(10 if q else 150, 16), workers=2)
     sp = ctx.write_scripts("mid", walks)
     tr = ctx.run_harness("algo", sp, name="mid", args=[ONLY, "proj=basic", "rep=1", "repalgos=tri,lcc", "prmaxit=2"], timeout=7200)
     ctx.validate("Algo_Trace", A.TRACE, tr, name="mid", corrupt=A.corrupt, timeout=7200)
     if not q:
-        # every insertion ORDER of every 3-node graph with <= 3 relationships
-        seqs = ctx.tlc_gen("MC_Algo", A.gen(3, 3, canon="FALSE"), "allseq-n3e3", workers=4, timeout=3000)
+        # every insertion ORDER of every 3-node graph with <= 3 relationships (weights {1,2})
+        seqs = ctx.tlc_gen("MC_Algo", A.gen("{3}", 3, w=A.W2, canon="FALSE"), "allseq-n3e3", workers=4, timeout=3000)
         sp = ctx.write_scripts("allseq", seqs)
         tr = ctx.run_harness("algo", sp, name="allseq", args=["only=Path,Mst,Flow,Comp", "proj=basic", "rep=0"], timeout=7200)
         ctx.validate("Algo_Trace", A.TRACE, tr, name="allseq", corrupt=A.corrupt, timeout=7200)
